@@ -32,7 +32,7 @@ use vsim::SimProvider;
 
 use super::*;
 
-fn zone_signer() -> DnssecSigner {
+pub fn zone_signer() -> DnssecSigner {
     let seed = [0x5au8; 32];
     let kp = ring::signature::Ed25519KeyPair::from_seed_unchecked(&seed).expect("ed25519 seed");
     let k: Box<dyn SigningKey> = Box::new(Ed25519SigningKey::from_ed25519(kp));
